@@ -1,3 +1,49 @@
-(** placeholder *)
-From Xds Require Import Model.PolicyCheck.
-Theorem C17_placeholder : True. Proof. exact I. Qed.
+(** C17 — Retry policies track the route tables currently in force.
+    Statements only; proofs are [exact] of lemmas in Proofs/PolicyProofs.v.
+    The handler is handed the route tables in force after the update (for this merge-type the cache overlaid
+    with the update: Model/Sys.v [handle_resp], tied to the code by the correspondence of the [u_map]s). *)
+From Xds Require Import Model.Base Model.Fqdn Model.Proto Model.Decode Model.Sys Model.Policy.
+From Xds Require Import Proofs.PolicyProofs.
+Open Scope string_scope.
+
+(** After a handler run on the tables [up] the installed keys are EXACTLY the keys derived from those tables:
+    policies of clusters no longer referenced by any of them are removed, and a table that a partial update
+    omitted is still in [up], so its policies stay. *)
+Theorem C17_installed_keys : forall s up k, rt_inv s ->
+  amem k (rt_pol (rt_update s up)) = smem k (map fst (flat_map (fun kv => table_finals (snd kv)) up)).
+Proof. exact rt_update_keys. Qed.
+Print Assumptions C17_installed_keys.
+
+Theorem C17_invariant_kept : forall s up, rt_inv s -> rt_inv (rt_update s up).
+Proof. exact rt_update_inv. Qed.
+Theorem C17_invariant_init : rt_inv rt_init.
+Proof. exact rt_init_inv. Qed.
+Print Assumptions C17_invariant_kept.
+
+(** ... and the value installed for a key is the policy those tables configure for it (when several tables
+    configure the same key, one of them: Go's map order decides, the model keeps the candidates). *)
+Theorem C17_installed_values : forall s up k,
+  let finals := flat_map (fun kv => table_finals (snd kv)) up in
+  smem k (map fst finals) = true ->
+  aget k (rt_pol (rt_update s up)) = Some (map snd (filter (fun kv => String.eqb (fst kv) k) finals)).
+Proof. exact rt_update_values. Qed.
+Print Assumptions C17_installed_values.
+
+(** the keys of one table: every destination cluster and cluster|method for each listed method *)
+Theorem C17_table_keys : forall v k, amem k (table_finals v) = smem k (map fst (rt_of_rc v)).
+Proof. exact table_keys_spec. Qed.
+Print Assumptions C17_table_keys.
+
+(** the policy of one route: attempts, total duration attempts x per-try timeout (in ms, uint32 arithmetic as in
+    the code), error-rate ceiling, back-off none / fixed at the base interval / random between base and maximum *)
+Theorem C17_policy_of_route : forall r,
+  rq_times (rpol_of_route r) = rp_num (r_retry r) /\
+  rq_dur (rpol_of_route r) = u32 (u32z (ms_of (rp_pertry (r_retry r))) * u32 (rp_num (r_retry r))) /\
+  rq_rate (rpol_of_route r) = rp_cbrate (r_retry r) /\
+  rq_bo (rpol_of_route r) = match rp_backoff (r_retry r) with
+                            | None => (0, 0, 0)
+                            | Some (base, mx) => if (base <? mx)%Z then (2, Z.to_N (ms_of base), Z.to_N (ms_of mx))
+                                                 else (1, Z.to_N (ms_of base), 0)
+                            end.
+Proof. exact (fun r => conj eq_refl (conj eq_refl (conj eq_refl eq_refl))). Qed.
+Print Assumptions C17_policy_of_route.
